@@ -29,6 +29,26 @@ CLAIMED = {
   "Bounded symbolic model checking of the real comparator, stores and collector: SortOrder.Compare is a strict total order agreeing with the reference meaning (lexicographic, desc flips, hit number last) for all key bytes; missing-value placement in all four (desc, missing-first) combinations and under Reverse; slice-store and heap-store AddNotExceedingSize/Final as one step from an arbitrary valid store (container/heap from source); collectSingle as the inductive step of 'store = best size+skip hits seen, marker = best dropped hit', so the lowest-outside shortcut and the search-after filter are decided for hit lists of any length; end-to-end Collect over the real pool for k <= 4 hits and all (n, from) in range incl. the preallocation cap; search-after and search-before paging; Collector() leaves the request's sort order unchanged.",
   "Bounds: keys 1-2 bytes; stores n <= 5/6 quick (10/12 thorough); k <= 4 (5) hits end to end; size+skip small (the slice/heap switch at 10 is crossed only by the store-step harnesses, the collector step uses the slice store). Excluded: a real value equal to the low placeholder 0x00 or >= ten 0xFF bytes (ties with the missing-value placeholder). Outside: sources reading real doc values (score/numeric/date sources; numeric decoding is C10), MultiSearch merging.",
   "DESIGN.md section 5 C09, appendix C.6"),
+ "C01": (
+  "One inductive step of the index from an arbitrary valid state, decided symbolically over the real introducer code (Batch.Insert/Update/Delete, Writer.introduceSegment, replaceRoot, currentSnapshot, Snapshot.Count/postingsIteratorAll/PostingsIterator/VisitStoredFields/segmentIndexAndLocalDocNumFromGlobal, segmentSnapshot.*, roaring from source): for every root (arbitrary ids with collisions, deleted sets, file/memory segments), every batch and every staleness of the optimistic pass, the reader obtained afterwards equals the abstract index (count, match-all, lookup by id, stored fields) and the representation invariant holds again, so histories of any length are covered.",
+  "Bounds: roots up to 2x2 docs quick (3x1, 1x3, 2x2 with larger batches thorough), batches <= 2 documents + <= 2 deletes, one-byte ids. Trusted: the model segment (DocsMatchingTerms independent of deletions, stored fields, _id postings) stands for ice; goroutines of postingsIteratorAll run inline. Outside: segment file formats v1/v2, directory kind, Batch's analysis fan-out and the channel hand-off to the introducer loop, document shapes beyond id+payload. The duplicate-id-in-one-batch case is probed separately and listed as known finding F5.",
+  "DESIGN.md section 5 C01, appendix C.1-C.3"),
+ "C04": (
+  "Symbolic check of reader immutability over the real introducer steps: a reader held across a real batch introduction, a real merge introduction of all segments and a real persist swap keeps the same count, documents, stored fields, segment list, offsets and deleted bitmaps (no in-place mutation of anything shared); no segment it references is released while it is open and each file segment no longer in the root is released exactly once after it closes; a postings iterator of a superseded snapshot is not recycled.",
+  "Bounds: roots up to 2x1 / 1x2 quick (2x2, 3x1 thorough), batch <= 1 document + 1 delete. Steps are atomic with respect to the reader (rootLock); schedules inside a step and the addRef/replaceRoot race (needs preemptive interleaving) are outside — see C15. Real munmap and file removal under a reader are outside (model closers).",
+  "DESIGN.md section 5 C04"),
+ "C05": (
+  "Data part of linearizability, decided symbolically: two batches prepared against the same root, each with an arbitrarily incomplete optimistic view (neither knows the other's new segment, so the introducer's recomputation path is exercised), introduced in either order by the real introduceSegment, give the sequential result in introduction order; a reader taken in between equals the prefix and is unaffected by the second introduction.",
+  "Bounds: roots of <= 1 segment with all batch shapes of <= 1 document + 1 delete each, one 2-segment case (thorough: 2x2 roots, <= 2 documents). The real-time clause (a Batch call returns only after its introduction) lives in prepareSegment/introducerLoop and needs goroutine scheduling: outside tier 1. More than two concurrent batches: by induction on the step (C01).",
+  "DESIGN.md section 5 C05"),
+ "C06": (
+  "Symbolic check of the real merge and persist introductions (introduceMerge, segmentMerge.ProcessSegmentNow, introducePersist) from an arbitrary plan-time root, merged subset and later root (more deletions on merged and other segments, merged segments fully obsoleted and gone, segments appended): content unchanged, no delete lost, nothing duplicated, skipped exactly when nothing live remains, invariant restored, merged-away file segments released once; plus a two-step run (plan on the real root, real batch with deletes, real merge introduction) that catches aliasing between snapshots.",
+  "Bounds: <= 2 segments x <= 2 docs (+ 1x3) quick, 3x2 / 2x3 thorough. Trusted: the model merger implements the SegmentPlugin.Merge contract (surviving docs in order; DocumentNumbers). Outside: the real ice merger, merge planning heuristics (C19), the timing of merge phases beyond 'arbitrary earlier view'.",
+  "DESIGN.md section 5 C06, appendix C.4"),
+ "C11": (
+  "One inductive step of KeepNLatestDeletionPolicy (Commit, Cleanup/cleanupSnapshots/cleanupSegments) from an arbitrary policy state satisfying the invariant DI, with every directory Remove free to fail: at every single Remove no snapshot among the N newest and no segment file of a snapshot still on disk is removed; afterwards the N newest commits are retained and loadable, failed removals stay scheduled, and a fault-free second clean-up leaves exactly the files of retained snapshots. Handle release exactly-once after the last user is decided in C04/C06.",
+  "Bounds: N in 1..3, <= 3 retained + <= 2 (3) deletable snapshots over segment ids {1,2}, map iteration order explored for maps of <= 2 entries. Outside: the directory lock and flock-guarded removal (kernel), Close stopping the loops, the pid-file handling of a refused second writer, merged-but-skipped segment files that are never cleaned (the code's own FIXME).",
+  "DESIGN.md section 5 C11, appendix C.5"),
 }
 
 NA = {
